@@ -7,11 +7,11 @@ from vlib import zlit, blist, pairlist, optlit, listlit, blit
 
 PROP = 'C13'
 REQUIRES = ['Edges.Model']
-RULE = ('edges: every binary stream of length <= L (quick 7, thorough 10) meeting the run-length precondition x debounce 1..3 x '
+RULE = ('edges: every binary stream of length <= L (quick 6-7, thorough 9) meeting the run-length precondition x debounce 1..3 x '
         'both initial states x EVERY chunking (all compositions of the length, so every boundary 0..debounce samples before/after an '
         'edge and chunks of length 1), detect mode / input form (plain 1-D, plain (1,n), PipelineData (1,n), PipelineData 1-D) / dtype / '
         'first index rotating; low-high-low-high streams with runs debounce+1..debounce+2, debounce 1..5, with the chunk boundaries '
-        'swept over every subset of the positions within debounce+1 of one edge and with all-ones chunking; a sample of streams NOT '
+        'swept over every subset (debounce >= 3 in quick: every subset of size <= 2, and the full set) of the positions within debounce+1 of one edge and with all-ones chunking; a sample of streams NOT '
         'meeting the precondition (model = code only); seeded random long streams with empty chunks, debounce up to 12; error paths '
         '(min_samples < 1, misaligned / different-rate / mixed chunks, unknown detect). Events: get_range_samples / '
         'get_latest_samples for every (start, end) pair around the block limits on blocks with events inside, on and outside the '
@@ -52,8 +52,7 @@ def transitions(init, first, x):
 
 def clean(m, init, x):
     """every run that has ended is longer than m; the initial state is a settled run"""
-    rl = []                       # run lengths of [init-run] + x
-    prev, cnt, first = bool(init), None, True
+    prev, cnt = bool(init), None      # cnt None: the settled initial run
     for b in x:
         b = bool(b)
         if b == prev:
@@ -119,8 +118,8 @@ def cases(tier, rng):
         yield {'k': 'edges', 'm': 2, 'init': 1, 'fs': 1000, 'detect': 'both', 'form': form, 'first': 3 if form == 'pd' else 0,
                'dtype': 'int', 'chunks': []}
     # --- exhaustive: clean streams x all chunkings
-    L = 7 if quick else 10
     for m in (1, 2, 3):
+        L = (6 if m == 1 else 7) if quick else 9
         for n in range(0, L + 1):
             for x in itertools.product([0, 1], repeat=n):
                 for init in (0, 1):
@@ -131,15 +130,15 @@ def cases(tier, rng):
                         yield _edge_case(i, m, init, x, comp)
     # --- boundary sweep around one edge of a low-high-low-high stream
     for m in ((1, 2, 3, 4, 5) if quick else (1, 2, 3, 4, 5, 6, 7)):
-        for extra in ((1,) if quick and m > 3 else (1, 2)):
+        for extra in ((1,) if quick and m > 1 else (1, 2)):
             r = m + extra
             x = [0] * r + [1] * r + [0] * r + [1] * r
             for init in (0, 1):
                 for edge in (r, 2 * r):
                     near = [p for p in range(edge - m - 1, edge + m + 2) if 0 < p < len(x)]
-                    if quick and len(near) > 9:
-                        near = near[1:-1]
-                    for k in range(len(near) + 1):
+                    # every subset of the nearby positions (quick, debounce >= 3: subsets of size <= 2 and the full set)
+                    sizes = range(len(near) + 1) if (m <= 2 or (not quick and m <= 4)) else [0, 1, 2, len(near)]
+                    for k in sizes:
                         for cut in itertools.combinations(near, k):
                             pts = [0] + list(cut) + [len(x)]
                             comp = [b - a for a, b in zip(pts, pts[1:])]
